@@ -315,6 +315,26 @@ def run(ctx):
                 run_matrix(ctx, to_stochastic(W), "block_c%d" % c, st, True)
                 if rng.random() < 0.25:
                     run_matrix(ctx, to_generator(W), "block_generator", st, False)
+    # 2b. three or four recurrent classes with at least two states each (equal sizes included), a few transient
+    #     states feeding them, random numbering: a wrong sub-matrix for a class shows only here
+    for _ in range(14 * reps):
+        sizes = rng.choice([[2, 2, 2], [2, 2, 2, 2], [2, 3, 2], [3, 2, 3], [2, 2, 3], [2, 2, 2, 1], [3, 3, 2]])
+        t = rng.randrange(0, 9 - sum(sizes))
+        c = len(sizes) + t
+        # transient singletons first (each feeding one or two recurrent blocks), then the recurrent blocks
+        mask, bit = 0, 0
+        for a in range(c):
+            for b in range(a + 1, c):
+                if a < t and b >= t and rng.random() < 0.6:
+                    mask |= 1 << bit
+                bit += 1
+        W = block_structure(rng, c, mask, [1] * t + sizes)
+        for a in range(t):                      # make sure a transient state really leaves
+            if not any(W[a][j] for j in range(t, len(W))):
+                W[a][rng.randrange(t, len(W))] = Fraction(1, 2)
+        perm = list(range(len(W)))
+        rng.shuffle(perm)
+        run_matrix(ctx, to_stochastic(permute(W, perm)), "many_recurrent", st, True)
     # 3. nearly decomposable, entries down to 1e-12
     for _ in range(40 * reps):
         n = rng.randrange(2, 9)
@@ -388,6 +408,15 @@ def replay(data):
         _, rec = sccs(n, lambda i, j: i != j and A[i, j] > 0)
         Af = [[frac(float(v)) for v in r] for r in A]
         print("gth_solve:", x.tolist())
+        if "form" in inp or first.get("kind", "").startswith("sd"):
+            from quantecon import MarkovChain
+            from scipy import sparse
+            try:
+                arg = sparse.csr_matrix(A) if inp.get("form") == "csr" else A
+                print("MarkovChain(%s).stationary_distributions:" % inp.get("form", "dense"),
+                      np.asarray(MarkovChain(arg).stationary_distributions).tolist())
+            except Exception as ex:
+                print("MarkovChain raised", repr(ex))
         for c in rec:
             print("exact class", c, [float(v) for v in exact_stationary(Af, c)])
     return 0
